@@ -210,6 +210,103 @@ class FA:
 
         return A.norm(C().visit(e))
 
+    # ---- path conditions ----------------------------------------------------------------
+    def _atoms(self, test, node_id, positive: bool):
+        """Decompose a branch test taken with the given polarity into literals (text, polarity).  A conjunction
+        taken true / a disjunction taken false splits into its parts; anything else stays one literal."""
+        t = test
+        if isinstance(t, ast.UnaryOp) and isinstance(t.op, ast.Not):
+            return self._atoms(t.operand, node_id, not positive)
+        if isinstance(t, ast.BoolOp):
+            if (isinstance(t.op, ast.And) and positive) or (isinstance(t.op, ast.Or) and not positive):
+                out = []
+                for v in t.values:
+                    out += self._atoms(v, node_id, positive)
+                return out
+        return [self._literal(t, node_id, positive)]
+
+    def _literal(self, t, node_id, positive):
+        """Canonical text of one literal: locals expanded, `x is not None` as the negation of `x is None`,
+        `a != b` as the negation of `a == b`, `a not in b` of `a in b`, operands of == sorted."""
+        if isinstance(t, ast.Compare) and len(t.ops) == 1:
+            op = t.ops[0]
+            l, r = t.left, t.comparators[0]
+            neg = {ast.IsNot: ast.Is, ast.NotEq: ast.Eq, ast.NotIn: ast.In}
+            if type(op) in neg:
+                t = ast.copy_location(ast.Compare(left=l, ops=[neg[type(op)]()], comparators=[r]), t)
+                positive = not positive
+                op = t.ops[0]
+            lt, rt = self.xnorm(l, node_id), self.xnorm(r, node_id)
+            if isinstance(op, ast.Eq) and rt < lt:
+                lt, rt = rt, lt
+            sym = {ast.Is: "is", ast.Eq: "==", ast.In: "in", ast.Lt: "<", ast.Gt: ">", ast.LtE: "<=", ast.GtE: ">="}.get(type(op), type(op).__name__)
+            return ("%s %s %s" % (lt, sym, rt), positive)
+        return (self.xnorm(t, node_id), positive)
+
+    def conditions(self, target, cap: int = 4000):
+        """Disjunctive normal form of the conditions under which `target` (a statement / expression / CFG node
+        id) is reached from the entry: a set of frozensets of literals (text, polarity), collected along the
+        acyclic paths of the CFG and simplified by resolution ((A & x) | (A & ~x) = A) and absorption.  Loop
+        heads contribute no literal.  Returns None when there are too many paths."""
+        ids = [target] if isinstance(target, int) else self.nodes(target)
+        cfg = self.cfg
+        want = set(ids)
+        results = set()
+        count = [0]
+
+        def dfs(n, onpath, lits):
+            if count[0] > cap:
+                return
+            if n in want:
+                count[0] += 1
+                results.add(frozenset(lits))
+                return
+            for (d, l) in cfg.succ[n]:
+                if d in onpath:
+                    continue
+                add = []
+                nd = cfg.node(n)
+                if nd.kind == "test" and l in ("T", "F") and not isinstance(self.pm.get(nd.ast), ast.While):
+                    add = self._atoms(nd.ast, n, l == "T")
+                # contradictory literal: infeasible path
+                if any((a[0], not a[1]) in lits for a in add):
+                    continue
+                onpath.add(d)
+                dfs(d, onpath, lits + [a for a in add if a not in lits])
+                onpath.discard(d)
+
+        dfs(cfg.entry, {cfg.entry}, [])
+        if count[0] > cap:
+            return None
+        # resolution + absorption
+        res = set(results)
+        changed = True
+        while changed:
+            changed = False
+            lst = list(res)
+            for i in range(len(lst)):
+                for j in range(i + 1, len(lst)):
+                    a, b = lst[i], lst[j]
+                    diff = a ^ b
+                    if len(diff) == 2:
+                        x, y = tuple(diff)
+                        if x[0] == y[0] and x[1] != y[1]:
+                            new = a & b
+                            if new not in res:
+                                res.add(new)
+                            res.discard(a)
+                            res.discard(b)
+                            changed = True
+                            break
+                if changed:
+                    break
+            if not changed:
+                for a in list(res):
+                    if any(b < a for b in res):
+                        res.discard(a)
+                        changed = True
+        return res
+
     def path_desc(self, start, target, removed=()):
         p = self.cfg.path(start, target, removed)
         return self.cfg.describe_path(p) if p else "(no path)"
